@@ -201,8 +201,16 @@ def _outfcn_never(x, state):
     return False
 
 
+def sched_asym(t, n_vars):
+    """a user-supplied annealing schedule for the LCB acquisition, deliberately not symmetric in (t, n_vars):
+    documented call order is schedule(t, n_vars) with t = func_count + 1"""
+    return float(np.sqrt(0.4 * np.log(n_vars * t ** 2 * np.pi ** 2 / 0.6)) * (1.0 + 0.25 * n_vars) / (1.0 + 0.01 * t))
+
+
 def build_options(sc):
     o = dict(sc.get("options", {}))
+    if o.pop("_search_acq_schedule", None) == "asym":
+        o["search_acq_fcn"] = ("acq_LCB", sched_asym)
     of = o.pop("_output_fcn", None)
     if of == "stop_init":
         o["output_fcn"] = _outfcn_stop
